@@ -1,7 +1,7 @@
 (* Properties/C17.v — ACK bookkeeping, Close once, returned data is a copy. *)
 From Coq Require Import List NArith ZArith Bool.
 Import ListNotations.
-Require Import Mach AuditConsts MsgTypes AuditClient ClientProofs.
+Require Import Mach AuditConsts MsgTypes AuditClient ClientProofs ChkClient ClientAckProofs.
 Open Scope N_scope.
 
 (* when the kernel acknowledges the pending NoWait requests in order (through any
@@ -39,7 +39,44 @@ Proof. exact first_close. Qed.
 Theorem C17_later_close_is_noop : forall s w, closed s = true -> cstep s w OClose = (s, w, (ROk, [], false)).
 Proof. intros s w H. cbn [cstep]. rewrite H. reflexivity. Qed.
 
+(* for EVERY kernel script - receive failures, replies to other requests, silence and truncated ACKs included - and every
+   pending list: WaitForPendingACKs takes a front part [used] of the script, and a request leaves the pending list exactly
+   when a message carrying its number was delivered to this call (after_wait, the reading the checker applies to the
+   implementation's observations).  In particular a receive that fails takes nothing off the list. *)
+Theorem C17_ack_leaves_only_when_delivered : forall s w,
+  let '(s', w', _) := cstep s w OWaitAcks in
+  exists used, rscript w = used ++ rscript w' /\ pending s' = after_wait used (pending s).
+Proof.
+  intros s w. cbn [cstep]. destruct (wait_acks s (rscript w) (pending s)) as [[s1 rest] e] eqn:E.
+  cbn [rscript with_script]. exact (wait_acks_pending s _ _ _ _ _ E).
+Qed.
+
+(* requests leave from the front, in order: what is left is a tail of what was pending *)
+Theorem C17_pending_leaves_in_order : forall used todo, exists gone, todo = gone ++ after_wait used todo.
+Proof. exact after_wait_suffix. Qed.
+
+(* a call that was delivered no message for the oldest pending request leaves the whole list pending *)
+Theorem C17_unanswered_stays_pending : forall q rest used,
+  Forall (fun ev => match ev with RMsg _ sq _ => sq <> q | _ => True end) used -> after_wait used (q :: rest) = q :: rest.
+Proof. exact after_wait_nothing_for. Qed.
+
+(* non-vacuity: a receive failure (ENOBUFS) in front of two ACKs: the first call takes only the failure and keeps both
+   requests, the second consumes both ACKs, the third reads nothing *)
+Example C17_receive_fault_example :
+  let ack q := RMsg NLMSG_ERROR q (le32 0 ++ le32 0) in
+  let s := {| pending := [1; 2]; clear_pid := false; closed := false; nseq := 2 |} in
+  let w := {| rscript := [RErr 105; ack 1; ack 2]; sfaults := [] |} in
+  let '(s1, w1, o1) := cstep s w OWaitAcks in
+  let '(s2, w2, o2) := cstep s1 w1 OWaitAcks in
+  let '(s3, w3, o3) := cstep s2 w2 OWaitAcks in
+  (pending s1, List.length (rscript w1), result_of o1) = ([1; 2], 2%nat, RFail (ERecv 105)) /\
+  (pending s2, rscript w2, result_of o2) = ([], [], ROk) /\ (pending s3, rscript w3, result_of o3) = ([], [], ROk).
+Proof. vm_compute. repeat split. Qed.
+
 Print Assumptions C17_later_close_is_noop.
+Print Assumptions C17_ack_leaves_only_when_delivered.
+Print Assumptions C17_pending_leaves_in_order.
+Print Assumptions C17_unanswered_stays_pending.
 Print Assumptions C17_wait_consumes_once_in_order.
 Print Assumptions C17_wait_returns_first_error.
 Print Assumptions C17_close_at_most_once.
